@@ -291,6 +291,10 @@ pub struct CrashSpec {
     pub check_directory: bool,
     /// clause prefix: "C02" / "C16"
     pub prefix: &'static str,
+    /// recover every crash image not only with the options that were in force at the crash but
+    /// with every other configuration of the history as well (options changed between the crash
+    /// and the next open: log reuse switched on or off, another memtable budget, ...)
+    pub cross_cfg: bool,
 }
 
 #[derive(Clone, Debug)]
@@ -441,6 +445,28 @@ fn check_point(h: &History, rec: &Recording, spec: &CrashSpec, shm: &Shm, p: usi
     match recover_and_check(&image, &rec.dirs, &cands, &h.keys, &cfg, &opts, spec.prefix) {
         Err(v) => push_found(shm, h, &v.clause, &v.detail, describe_point(rec, h, p, torn, None)),
         Ok((_fs, _)) => {}
+    }
+    if spec.cross_cfg {
+        let mut seen = vec![cfg];
+        // the other configurations of the history, the same options with log reuse flipped, and
+        // a 200-byte memtable budget (the recovery flushes several times while replaying one WAL)
+        let mut pool: Vec<Cfg> = h.cfgs.clone();
+        pool.push(Cfg { reuse: !cfg.reuse, ..cfg });
+        pool.push(Cfg { memtable: 200, ..cfg });
+        pool.push(Cfg { memtable: 200, reuse: !cfg.reuse, ..cfg });
+        for other in pool.iter() {
+            if seen.contains(other) {
+                continue;
+            }
+            seen.push(*other);
+            shm.add(C_CASES, 1);
+            if let Err(v) = recover_and_check(&image, &rec.dirs, &cands, &h.keys, other, &opts, spec.prefix) {
+                let mut pt = describe_point(rec, h, p, torn, None);
+                pt["written_with_config"] = json!(cfg.name());
+                pt["recovered_with_config"] = json!(other.name());
+                push_found(shm, h, &v.clause, &format!("(crash image written with options {}, recovered with options {}) {}", cfg.name(), other.name(), v.detail), pt);
+            }
+        }
     }
     if spec.nested {
         // crash during the recovery itself: recover without probes, record its log
